@@ -3,6 +3,7 @@ import Holpy.C16.SimplexInv
 import Holpy.C16.SimplexCheck3
 import Holpy.C16.SimplexHandle
 import Holpy.C16.SimplexRun
+import Holpy.C16.SimplexFuel
 import Holpy.C16.SimplexBBProofs
 /-
 C16 — property theorems about the model of `prover/simplex.py` (`Simplex`).  The model
@@ -190,5 +191,17 @@ def bbTag : BBResult → Nat
 -- 1 ≤ 2x ≤ 3 has the integer solution x = 1 (found after one branching); 2x = 1 has none (both children closed)
 example : bbTag (branchAndBound 20 10 [⟨.ge, [(100, 2)], 1⟩, ⟨.le, [(100, 2)], 3⟩] [100]).1 = 0 ∧
     bbTag (branchAndBound 20 10 [⟨.ge, [(100, 2)], 1⟩, ⟨.le, [(100, 2)], 1⟩] [100]).1 = 1 := by decide +kernel
+
+/-- The answer of `Simplex.check()` in the model does not depend on the fuel once it is not `fuel`:
+so "check terminates on `s`" means exactly `∃ n, (check n s).1 ≠ .fuel`, and then every larger fuel
+gives the same verdict and state.  That such an `n` exists for every state (termination under
+Bland's rule, fix C16-5) is NOT proved in Lean; it is Dutertre–de Moura's theorem and is supported by
+the search of 1.4 million degenerate systems that found no cycle after the fix. -/
+theorem check_fuel_independent (n k : Nat) (s : SState) (h : (check n s).1 ≠ .fuel) : check (n + k) s = check n s :=
+  check_fuel_mono n k s h
+
+example : (check 5 exampleSat).1 ≠ .fuel := by
+  intro h; have : ((check 5 exampleSat).1 == Verdict.fuel) = false := by decide
+  rw [h] at this; exact absurd this (by decide)
 
 end Holpy.C16
